@@ -1381,6 +1381,8 @@ def register(M):
             raise AnalysisError('np.diff argument not modelled', node)
         if kwarg(args, kw, 1, 'n', 1) != 1:
             raise AnalysisError('np.diff(n != 1) not modelled', node)
+        if kwarg(args, kw, 2, 'axis', -1) not in (-1, 0) or kw.get('prepend') is not None or kw.get('append') is not None:
+            raise AnalysisError('np.diff(axis= / prepend= / append=) beyond the 1-d default not modelled', node)
         if v.dtype == 'O':
             if any(e.d == NONE_EL for e in v.els()) and len(v) > 1:
                 raise AbsRaise(ExcVal('TypeError', ("unsupported operand type(s) for -: 'NoneType'",)), node)
